@@ -518,6 +518,9 @@ def symmetric_helper(F, g):
             if l["k"] == "CallExpr" and l.get("callee") in ("memcmp", "std::memcmp") and cv(r) == 0:
                 a = call_args(l)
                 ok = (is_addr(a[0], pa) and is_addr(a[1], pb)) or (is_addr(a[0], pb) and is_addr(a[1], pa))
+            elif l["k"] == "CallExpr" and l.get("callee") in ("strcmp", "std::strcmp") and cv(r) == 0:
+                a = [strip(x).get("declId") for x in call_args(l)]
+                ok = sorted(a) == sorted([pa, pb])        # string contents compared: symmetric and reflexive
             elif l.get("declId") in (pa, pb) and r.get("declId") in (pa, pb) and l.get("declId") != r.get("declId"):
                 ok = g.params[0]["ct"].replace("const ", "") not in ("double", "float", "long double")
     memo[g.id] = ok
